@@ -381,6 +381,14 @@ def engine_case(ctx, i, engine_name, opts, model_kind, nn_only, expected_order, 
         ctx.violation(tag + ':trunc_err-differs-from-sum-of-step-errors', 'engine.trunc_err.eps = %r but start (%r) + sum of the errors '
                       'returned by the %d evolve() calls = %r (sum over the %d truncate() calls: %r)' %
                       (got, start_eps, len(led.evolve_eps), start_eps + sum_evolve, len(led.truncate_eps), sum_trunc), case)
+    if hasattr(eng, 'trunc_err_bonds'):
+        # TEBD keeps the accumulated error bond by bond as well: the bonds add up to what the evolve() calls returned
+        teb = eng.trunc_err_bonds
+        ctx.count('ledger.trunc_err_bonds_checked')
+        sum_bonds = float(sum(t_.eps for t_ in teb))
+        if len(teb) != eng.psi.L - 1 or not (abs(sum_bonds - sum_evolve) <= 1e-10 * max(1e-6, sum_evolve)):
+            ctx.violation(tag + ':trunc_err_bonds-do-not-add-up-to-the-step-errors', '%d bonds, sum %r; the evolve() calls returned %r' %
+                          (len(teb), sum_bonds, sum_evolve), case)
     deep = engine_name in ('TEBDEngine', 'TimeDependentTEBD', 'TwoSiteTDVPEngine', 'TimeDependentTwoSiteTDVP', 'QRBasedTEBDEngine')
     if deep and engine_name != 'QRBasedTEBDEngine' and 'Krylov_params' not in opts:
         # (the basis extension of TDVP truncates the vectors it adds, not the state: those truncate() calls are not errors of psi)
